@@ -13,7 +13,6 @@ use std::ops::Deref;
 
 pub use shuttle::sync::{atomic, mpsc, Barrier, BarrierWaitResult, Condvar, Once, OnceState, WaitTimeoutResult};
 pub use shuttle::sync::{RwLock, RwLockReadGuard, RwLockWriteGuard};
-pub use shuttle::thread_local;
 /// shuttle's `Arc` is std's `Arc` (no scheduling points), so use std's directly.
 pub use std::sync::{Arc, Weak};
 pub use std::sync::{LockResult, PoisonError, TryLockError, TryLockResult};
@@ -280,4 +279,120 @@ impl<T> OnceLock<T> {
             None
         }
     }
+}
+
+// ---------------------------------------------------------------------------
+// thread_local!: shuttle's per-task storage behind a key type that also has the
+// convenience methods of std's `LocalKey<RefCell<T>>` / `LocalKey<Cell<T>>`.
+
+#[doc(hidden)]
+pub use shuttle as __shuttle;
+
+/// `std::thread::LocalKey` look-alike over shuttle's per-task storage.
+pub struct LocalKey<T: 'static> {
+    #[doc(hidden)]
+    pub inner: shuttle::thread::LocalKey<T>,
+}
+
+impl<T: 'static> std::fmt::Debug for LocalKey<T> {
+    fn fmt(&self, f: &mut std::fmt::Formatter<'_>) -> std::fmt::Result {
+        f.write_str("LocalKey(..)")
+    }
+}
+
+impl<T: 'static> LocalKey<T> {
+    pub fn with<F, R>(&'static self, f: F) -> R
+    where
+        F: FnOnce(&T) -> R,
+    {
+        self.inner.with(f)
+    }
+    pub fn try_with<F, R>(&'static self, f: F) -> Result<R, shuttle::thread::AccessError>
+    where
+        F: FnOnce(&T) -> R,
+    {
+        self.inner.try_with(f)
+    }
+}
+
+impl<T: 'static> LocalKey<std::cell::RefCell<T>> {
+    pub fn with_borrow<F, R>(&'static self, f: F) -> R
+    where
+        F: FnOnce(&T) -> R,
+    {
+        self.inner.with(|c| f(&c.borrow()))
+    }
+    pub fn with_borrow_mut<F, R>(&'static self, f: F) -> R
+    where
+        F: FnOnce(&mut T) -> R,
+    {
+        self.inner.with(|c| f(&mut c.borrow_mut()))
+    }
+    pub fn set(&'static self, value: T) {
+        self.inner.with(|c| *c.borrow_mut() = value);
+    }
+    pub fn take(&'static self) -> T
+    where
+        T: Default,
+    {
+        self.inner.with(|c| c.take())
+    }
+    pub fn replace(&'static self, value: T) -> T {
+        self.inner.with(|c| c.replace(value))
+    }
+}
+
+impl<T: 'static> LocalKey<std::cell::Cell<T>> {
+    pub fn set(&'static self, value: T) {
+        self.inner.with(|c| c.set(value));
+    }
+    pub fn get(&'static self) -> T
+    where
+        T: Copy,
+    {
+        self.inner.with(|c| c.get())
+    }
+    pub fn take(&'static self) -> T
+    where
+        T: Default,
+    {
+        self.inner.with(|c| c.take())
+    }
+    pub fn replace(&'static self, value: T) -> T {
+        self.inner.with(|c| c.replace(value))
+    }
+}
+
+/// `std::thread_local!` look-alike (same grammar, including `const { .. }` initialisers).
+#[macro_export]
+macro_rules! thread_local {
+    () => {};
+    ($(#[$attr:meta])* $vis:vis static $name:ident: $t:ty = const { $init:expr }; $($rest:tt)*) => (
+        $crate::__thread_local_inner!($(#[$attr])* $vis $name, $t, $init);
+        $crate::thread_local!($($rest)*);
+    );
+    ($(#[$attr:meta])* $vis:vis static $name:ident: $t:ty = const { $init:expr }) => (
+        $crate::__thread_local_inner!($(#[$attr])* $vis $name, $t, $init);
+    );
+    ($(#[$attr:meta])* $vis:vis static $name:ident: $t:ty = const $init:block; $($rest:tt)*) => (
+        $crate::__thread_local_inner!($(#[$attr])* $vis $name, $t, $init);
+        $crate::thread_local!($($rest)*);
+    );
+    ($(#[$attr:meta])* $vis:vis static $name:ident: $t:ty = $init:expr; $($rest:tt)*) => (
+        $crate::__thread_local_inner!($(#[$attr])* $vis $name, $t, $init);
+        $crate::thread_local!($($rest)*);
+    );
+    ($(#[$attr:meta])* $vis:vis static $name:ident: $t:ty = $init:expr) => (
+        $crate::__thread_local_inner!($(#[$attr])* $vis $name, $t, $init);
+    );
+}
+
+#[doc(hidden)]
+#[macro_export]
+macro_rules! __thread_local_inner {
+    ($(#[$attr:meta])* $vis:vis $name:ident, $t:ty, $init:expr) => {
+        $(#[$attr])* $vis static $name: $crate::LocalKey<$t> = $crate::LocalKey {
+            inner: $crate::__shuttle::thread::LocalKey { init: || { $init }, _p: ::std::marker::PhantomData },
+        };
+    };
 }
